@@ -549,6 +549,8 @@ def run_chain_ecc(e, ob, extra_info, timeout=60):
         else:
             plain.append(key)
 
+    link_stats = {}
+
     def run_view(keys, subst, guard, keep=lambda key: True):
         """original chain on the groups `keys` under substitution; returns {key: R}. The hypothesis lines the
         chain states (E = 0, R = m*t / single-block residue form) are kept for the groups selected by `keep`."""
@@ -576,6 +578,13 @@ def run_chain_ecc(e, ob, extra_info, timeout=60):
         elif any(keep(k) for k in keys):
             raise ChainFail("internal: mixed keep/drop in one chain call")
         records.extend((a, b if guard == "true" else f"{b} [{guard}]", c_, d) for a, b, c_, d in recs)
+        for a, b, c_, d in recs:
+            if "@" in str(b) and a[0] in "AC" and isinstance(d, (int, float)):
+                nm_, row_ = b.rsplit("@", 1)
+                st = link_stats.setdefault(((nm_, int(row_)), guard), [0, 0.0, set()])
+                st[0] += 1
+                st[1] += d
+                st[2].add(c_)
         return Rs
 
     def is_ec(key):
@@ -604,8 +613,7 @@ def run_chain_ecc(e, ob, extra_info, timeout=60):
             if dd is None:
                 continue
             dec, c0 = dd
-            b0 = (None, c0)
-            r = lincomb(e, sorted(((kk, res(e, v)) for kk, v in dec), key=lambda t: str(t[1])), b0[1] - sum(kk for kk, _ in dec))
+            r = lincomb(e, sorted(((kk, res(e, v)) for kk, v in dec), key=lambda t: str(t[1])), c0 - sum(kk for kk, _ in dec))
             e.lines.append(f"(assert (= {r if not isinstance(r, int) else I(r)} 0))")
             records.append(("L", f"{key[0]}@{key[1]}", "linear group on residues: " + " ".join(f"{kk:+d}*res(v{pool.index(v)})" for kk, v in dec), 0))
             # lemma cut for zero tests of a well-formed vector z of the group (zero has a unique well-formed
@@ -657,17 +665,26 @@ def run_chain_ecc(e, ob, extra_info, timeout=60):
                         todo.append((k, Rs[k], guard, s, vac))
     # ---- (G): recognition. pass 1: vectors from product blocks of every group -----------------------
     peeled = {}
+    fieldchip = ("Foreign-field multiplication", "Foreign-field normalization")
     for key, R, guard, s, vac in todo:
         nm = key[0]
         kind = next((kd for pat, kd in KIND_OF_NAME.items() if pat in nm), None)
         if kind is None:
-            continue
-        try:
-            blocks, lin = peel(R, base, n, m)
-        except ChainFail as cf:
-            _gob(ob, key, guard, kind).set(core.INCONCLUSIVE, f"lifted polynomial not recognised: {cf}")
-            raise ChainFail(f"{nm}@{key[1]} [{guard}]: {cf}")
-        peeled[(key, guard)] = (blocks, lin)
+            if nm in fieldchip or not any(len(k) == 2 for k in R):
+                continue
+            # a gate group of unknown name with products: try to recognise it as one of the four identities
+            try:
+                peeled[(key, guard)] = peel(R, base, n, m)
+            except ChainFail:
+                continue
+        else:
+            try:
+                blocks, lin = peel(R, base, n, m)
+            except ChainFail as cf:
+                _gob(ob, key, guard, kind).set(core.INCONCLUSIVE, f"lifted polynomial not recognised: {cf}")
+                raise ChainFail(f"{nm}@{key[1]} [{guard}]: {cf}")
+            peeled[(key, guard)] = (blocks, lin)
+        blocks, lin = peeled[(key, guard)]
         for coef, FA, FB in blocks:
             for F in (FA, FB):
                 for v in vectors_of_form(F, n):
@@ -692,10 +709,9 @@ def run_chain_ecc(e, ob, extra_info, timeout=60):
     # pass 3: compare with the textbook identity, emit the residue-form hypothesis
     for key, R, guard, s, vac in todo:
         nm, row = key
-        kind = next((kd for pat, kd in KIND_OF_NAME.items() if pat in nm), None)
-        if kind is None:
+        if (key, guard) not in peeled:
             continue
-        gob = _gob(ob, key, guard, kind)
+        kind = next((kd for pat, kd in KIND_OF_NAME.items() if pat in nm), None)
         blocks, lin = peeled[(key, guard)]
         qc = []
         for coef, FA, FB in blocks:
@@ -707,6 +723,15 @@ def run_chain_ecc(e, ob, extra_info, timeout=60):
               and len({lin[a][0] for a in v}) == 1 and [lin[a][1] for a in v] == list(range(n))]
         cands = qc + [v for v in lc if v not in qc]
         t0 = time.time()
+        if kind is None:
+            # unknown gate name: whichever identity matches (none: the group is left to the plain chain)
+            for kd in TEMPLATES:
+                if match_identity(e, kd, R, qc, lc, s):
+                    kind = kd
+                    break
+            if kind is None:
+                continue
+        gob = _gob(ob, key, guard, kind)
         found = match_identity(e, kind, R, qc, lc, s)
         if not found:
             det = (f"the lifted polynomial of {nm}@{row} [{guard}] is not +-(textbook {kind} identity) over any choice of its own limb vectors "
@@ -724,7 +749,9 @@ def run_chain_ecc(e, ob, extra_info, timeout=60):
         gob.vacuity = bool(vac)
         gob.sample = dict(kind=kind, s=s, guard=guard, blocks=rec["blocks"], candidates=len(cands), monomials=len(R),
                           roles={k_: list(v_)[:2] + ["..."] for k_, v_ in asg0.items()})
-        gob.set(core.HOLDS, solver="chain+ground")
+        st = link_stats.get((key, guard), [0, 0.0, set()])
+        gob.queries, gob.solver_s = st[0], st[1]
+        gob.set(core.HOLDS, solver="+".join(sorted(st[2])) or "ground")
     # ---- raw modular rows of the conditional groups, for the counterexample search of cengine.decide ----
     # decide() re-encodes every skipped gate with Enc.constraint and keeps those lines aside (they constrain
     # the private quotient cells; models must respect them). The generic encoding of cond*Q would create new
@@ -774,44 +801,27 @@ def _syms(line):
 
 def sliced_text(e, formula, depth, fanout=3):
     """A slice of the hypotheses relevant to `formula`: starting from its symbols, repeatedly (depth times)
-    (1) follow every kept symbol to its DEFINING assertion (the first assertion after its declaration that
-    mentions it: residue/quotient/product/sum definitions, a cell's domain), whatever its size, and
-    (2) follow non-implication assertions that touch a kept symbol and bring in at most `fanout` new symbols
-    (gadget rows, limb-wise sums; not a range-check decomposition reached from the limb it decomposes). Finally every assertion speaking only about kept symbols is included, plus all
-    declarations. Dropping assertions only weakens the hypotheses: unsat of the slice implies unsat of the
-    full query."""
+    follow non-implication assertions that touch a kept symbol and bring in at most `fanout` new symbols
+    (sum / product / quotient definitions, gadget rows, limb-wise sums; NOT a residue definition reached from
+    the residue, nor a range-check decomposition reached from the limb it decomposes). Finally every assertion
+    speaking only about kept symbols is included, plus all declarations. Dropping assertions only weakens the
+    hypotheses: unsat of the slice implies unsat of the full query."""
     idx = getattr(e, "_fecc_idx", None)
     if idx is None or idx[0] != len(e.lines):
         per = [(_syms(l) if l.startswith("(assert") else None) for l in e.lines]
-        defline, pending = {}, []
-        for i, l in enumerate(e.lines):
-            if l.startswith("(declare-const "):
-                pending.append(l.split()[1])
-            elif per[i] is not None and pending:
-                still = []
-                for sym_ in pending:
-                    if sym_ in per[i]:
-                        defline[sym_] = i
-                    else:
-                        still.append(sym_)
-                pending = still[-8:]
         small = {}
         for i, (l, sy) in enumerate(zip(e.lines, per)):
             if sy and len(sy) <= 40 and not l.startswith("(assert (=>"):
                 for a in sy:
                     small.setdefault(a, []).append(i)
-        idx = e._fecc_idx = (len(e.lines), per, defline, small)
-    _, per, defline, small = idx
+        idx = e._fecc_idx = (len(e.lines), per, small)
+    _, per, small = idx
     keep = _syms(formula)
     chosen = set()
     frontier = set(keep)
     for _ in range(depth):
         new = set()
         for a in frontier:
-            i = defline.get(a)
-            if i is not None and i not in chosen:
-                chosen.add(i)
-                new |= per[i] - keep
             for j in small.get(a, ()):
                 if j not in chosen and len(per[j] - keep - new) <= fanout:
                     chosen.add(j)
@@ -876,8 +886,6 @@ def discover_bit(e, ob, vec, zl, zeq, sem, hon_of, extra_info, timeout):
     want = [int(all(h.get(a) == zl[i] for i, a in enumerate(vec))) for h in runs]
     cands = [b for b in e.vars.values() if e.bound(b) <= 2 or b in e.bool_atoms]
     cands = [b for b in cands if all(h.get(b) == w for h, w in zip(runs, want))]
-    if not cands:
-        return None
     # distance from the limbs
     per = [(_syms(l) if l.startswith("(assert") and not l.startswith("(assert (=>") else None) for l in e.lines]
     keep, level = set(vec), {a: 0 for a in vec}
@@ -926,7 +934,8 @@ def discover_bit(e, ob, vec, zl, zeq, sem, hon_of, extra_info, timeout):
             if os.environ.get("FECC_DEBUG"):
                 print(f"   fecc zero-test bit candidate {b} [depth {depth}]: {r.status} {r.time_s:.1f}s", flush=True)
             if r.status == "unsat":
-                e.lines.append(f"(assert {f})")
+                e.lines.append(f"(assert (or (= {b} 0) (= {b} 1)))")
+                e.lines.append(f"(assert (= (= {b} 1) {zeq}))")
                 e.lines.append(f"(assert (= (= {b} 1) {sem}))")
                 e.set_bound(b, 2)
                 return b
@@ -936,8 +945,8 @@ def discover_bit(e, ob, vec, zl, zeq, sem, hon_of, extra_info, timeout):
 def search_forged(e, f, label="", timeout=40):
     """Counterexample search for a part `f` of the specification the solver did not prove: every cell is
     pinned to its value in the honest run except the exposed OUTPUT cells mentioned by `f` and the cells that
-    share an ordinary gate row or a lookup with them (their range-check digits, gadget intermediates; two
-    steps). Cells of foreign-field gate groups stay pinned, so an output a gate group constrains cannot move.
+    share, through up to six steps, an ordinary gate row or a lookup with them (range-check digits, gadget
+    intermediates, flags computed from them). Cells of foreign-field gate groups stay pinned, so an output a gate group constrains cannot move.
     Products with one pinned operand are stated exactly. A model is re-checked with exact arithmetic on the
     real constraints and replayed on the real MockProver; only an ACCEPTED forged assignment whose instance
     violates `f` (ground solver query) is returned: dict(overrides, instance) or None."""
@@ -1021,23 +1030,44 @@ def search_forged(e, f, label="", timeout=40):
     pins = [f"(assert (= {n_} {I(v_)}))" for n_, v_ in pinned.items()]
     raw = list(getattr(e, "raw_ff_lines", []))
     atoms = sorted(F)
-    r = solvers.solve(e.text(decl + raw + pins + exact + [f"(assert (not {f}))"]), timeout=timeout, get_values=atoms)
-    if ob is not None:
-        ob.queries += 1
-        ob.solver_s += r.time_s
-    if os.environ.get("FECC_DEBUG"):
-        print(f"   fecc forged-assignment search for '{label}': {len(F)} free cells, {r.status} {r.solver} {r.time_s:.1f}s", flush=True)
-    if r.status != "sat":
-        return None
-    assign = {nm: (r.model[nm] % P if nm in F and nm in r.model else hon[nm]) for nm in names.values()}
-    assign = e.repair_model(assign)
-    cls_assign = {cl: assign[nm] for cl, nm in names.items()}
-    for c in S.used_classes():
-        cls_assign.setdefault(c, honest.get(c, 0))
-    bad = S.check_exact(cls_assign)
-    if bad:
+    free_derived = [it[1] for it in e.order if it[1] not in pinned]
+    assign = cls_assign = None
+    for rnd in range(5):
+        r = solvers.solve(e.text(decl + raw + pins + exact + [f"(assert (not {f}))"]), timeout=timeout, get_values=atoms + free_derived)
+        if ob is not None:
+            ob.queries += 1
+            ob.solver_s += r.time_s
         if os.environ.get("FECC_DEBUG"):
-            print(f"   fecc forged-assignment search: model violates real constraints {bad[:2]}", flush=True)
+            print(f"   fecc forged-assignment search for '{label}' (round {rnd}): {len(F)} free cells, {r.status} {r.solver} {r.time_s:.1f}s", flush=True)
+        if r.status != "sat":
+            return None
+        assign = {nm: (r.model[nm] % P if nm in F and nm in r.model else hon[nm]) for nm in names.values()}
+        assign = e.repair_model(assign)
+        cls_assign = {cl: assign[nm] for cl, nm in names.items()}
+        for c in S.used_classes():
+            cls_assign.setdefault(c, honest.get(c, 0))
+        bad = S.check_exact(cls_assign)
+        if not bad:
+            break
+        # exact values of the products the abstract model got wrong: state them (linear in each operand)
+        exm = e.exact_atoms(dict(assign))
+        wrong = [it for it in e.order if it[0] in ("mul", "mm") and it[1] in r.model and r.model[it[1]] != exm[it[1]]]
+        if os.environ.get("FECC_DEBUG"):
+            print(f"   fecc forged-assignment search: model violates real constraints {bad[:2]}; {len(wrong)} abstract products wrong", flush=True)
+        if not wrong:
+            return None
+        for it in wrong[:60]:
+            t, a, b = it[1], it[2], it[3]
+            mod_ = P if it[0] == "mul" else it[4]
+            for x, y in ((a, b), (b, a)):
+                if isinstance(x, int):
+                    continue
+                vx = exm[x]
+                q = fq()
+                decl.append(f"(declare-const {q} Int)")
+                yy = I(y) if isinstance(y, int) else y
+                exact.append(f"(assert (=> (= {x} {I(vx)}) (= (* {I(vx)} {yy}) (+ {t} (* {mod_} {q})))))")
+    else:
         return None
     ex = e.exact_atoms(assign)
     r2 = solvers.solve(e.text([f"(assert (= {n_} {I(v_)}))" for n_, v_ in ex.items()] + [f"(assert {f})"]), timeout=timeout)
